@@ -8,8 +8,8 @@ def B(qc, tc, **kw):
 BUDGET = {
     "C04": B(2800, 16800),
     "C09": B(2800, 16800),
-    "C01": B(3000, 15000),
-    "C02": B(3000, 15000, foreign=["ASSERT:m_activeOp"]),
+    "C01": B(3000, 10000),
+    "C02": B(3000, 10000, foreign=["ASSERT:m_activeOp"]),
     "C03": B(2200, 13200, foreign=["ASSERT:m_activeOp"]),
     "C12": B(2400, 14400, foreign=["ASSERT:m_activeOp"]),
     "C07": B(4500, 15000),
@@ -43,7 +43,7 @@ FUZZ = {
 # small-scope systematic enumeration (thorough tier only): every program of a small program space x every schedule with
 # at most `preempt` non-default choices
 ENUM = {
-    "C01": dict(preempt=2), "C02": dict(preempt=2), "C03": dict(preempt=2), "C12": dict(preempt=2),
+    "C01": dict(preempt=2, first=(64, 3)), "C02": dict(preempt=2, first=(64, 3)), "C03": dict(preempt=2), "C12": dict(preempt=2),
     "C07": dict(preempt=2, max_runs=60000), "C08": dict(preempt=2, max_runs=60000), "C20": dict(preempt=8, max_runs=60000),
     "C11": dict(preempt=2, max_runs=60000),
 }
